@@ -216,14 +216,14 @@ class C17(Check):
                   if not any((c.endswith("] is not None") and not p_) or (c.endswith("] is None") and p_) for c, p_ in st.conds)]  # a table lookup is never None
             for kind in ("parameters", "variables"):
                 sel = [st for st in p3 if (f"{K} in model.{kind}", True) in st.conds and not (kind == "variables" and (f"{K} in model.parameters", True) in st.conds)]
-                ok3 = bool(sel) and all([(e[1], e[2]) for e in st.events if e[0] == "store"] == [(f"sym.{kind}[{K}].value", want_v)] for st in sel)
+                ok3 = bool(sel) and all(st.stores() == [(f"sym.{kind}[{K}].value", want_v)] for st in sel)
                 if ok3:
                     self.holds("U3", MOD, "_codegen", f"assignments-applied-to-{kind}", ia[0], f"an initial assignment on a {kind[:-1]} replaces its value by the assignment's function")
                 else:
                     self.violated("U3", MOD, "_codegen", f"assignments-applied-to-{kind}", ia[0], f"initial assignments on {kind} are not applied",
                                   witness=f"a {kind[:-1]} with an <initialAssignment>: the imported model starts from the plain value")
             silently = [st for st in p3 if (f"{K} in model.parameters", False) in st.conds and (f"{K} in model.variables", False) in st.conds
-                        and not any(e[0] in ("store", "raise") for e in st.events)]
+                        and not st.stores() and not any(e[0] == "raise" for e in st.events)]
             if silently:
                 self.info("U3", MOD, "_codegen", "assignment-on-other-target", ia[0],
                           "an initial assignment whose target is neither a parameter nor a variable of the transformed model is silently skipped; "
